@@ -133,6 +133,108 @@ def make(kind, p):
             s.memory_map = MemoryMap(addr_width=saw, data_width=dw)
             x.add(s)
         return x, [x.bus]
+    if kind == "after_refusal":
+        # a mutator call that the library refuses (the user catches the error and carries on) somewhere in the
+        # construction history; the component that results is an accepted one and must elaborate like any other
+        comp, how, pos, n = p
+
+        def attempt(fn):
+            try:
+                fn()
+            except (ValueError, TypeError):
+                pass
+
+        if comp == "wbdec":
+            def wsub(aw, dw, k, g=8):
+                s = wishbone.Interface(addr_width=aw, data_width=dw, granularity=g, path=(f"s{k}",))
+                s.memory_map = MemoryMap(addr_width=max(1, aw + exact_log2(dw // g)), data_width=g)
+                return s
+            x = wishbone.Decoder(addr_width=4, data_width=16, granularity=8)
+            for k in range(n + 1):
+                if k == pos:
+                    bad = {"overlap": lambda: x.add(wsub(1, 16, 90), addr=0),
+                           "oob": lambda: x.add(wsub(1, 16, 91), addr=1 << 5),
+                           "name": lambda: x.add(wsub(1, 16, 92), name="w0"),
+                           "width": lambda: x.add(wsub(1, 32, 93, 8)),
+                           "badtype": lambda: x.add("bus")}[how]
+                    attempt(bad)
+                if k < n:
+                    x.add(wsub(1, 16, k), name=f"w{k}")
+            return x, [x.bus]
+        if comp == "csrdec":
+            def csub(aw, dw, k):
+                s = csr.Interface(addr_width=aw, data_width=dw, path=(f"s{k}",))
+                s.memory_map = MemoryMap(addr_width=aw, data_width=dw)
+                return s
+            x = csr.Decoder(addr_width=5, data_width=8)
+            for k in range(n + 1):
+                if k == pos:
+                    bad = {"overlap": lambda: x.add(csub(2, 8, 90), addr=0),
+                           "oob": lambda: x.add(csub(2, 8, 91), addr=1 << 5),
+                           "name": lambda: x.add(csub(2, 8, 92), name="w0"),
+                           "width": lambda: x.add(csub(2, 16, 93)),
+                           "badtype": lambda: x.add("bus")}[how]
+                    attempt(bad)
+                if k < n:
+                    x.add(csub(2, 8, k), name=f"w{k}")
+            return x, [x.bus]
+        if comp == "arbiter":
+            x = wishbone.Arbiter(addr_width=3, data_width=16, granularity=8, features=("err",))
+            for k in range(n + 1):
+                if k == pos:
+                    bad = {"width": lambda: x.add(wishbone.Interface(addr_width=3, data_width=32, granularity=8, path=("b",))),
+                           "addr": lambda: x.add(wishbone.Interface(addr_width=4, data_width=16, granularity=8, path=("b",))),
+                           "gran": lambda: x.add(wishbone.Interface(addr_width=4, data_width=16, granularity=16, path=("b",))),
+                           "feature": lambda: x.add(wishbone.Interface(addr_width=3, data_width=16, granularity=8, features=("rty",), path=("b",))),
+                           "badtype": lambda: x.add("bus")}[how]
+                    attempt(bad)
+                if k < n:
+                    x.add(wishbone.Interface(addr_width=3, data_width=16, granularity=8, features=("err",), path=(f"i{k}",)))
+            return x, [x]
+        if comp == "bridge":
+            b = csr.Builder(addr_width=4, data_width=16, granularity=8)
+            regs = [RWreg(8 + 4 * k) for k in range(n)]
+            for k in range(n + 1):
+                if k == pos:
+                    bad = {"dup": lambda: b.add("again", regs[0]),
+                           "badtype": lambda: b.add("q", "reg"),
+                           "badname": lambda: b.add("", RWreg(8)),
+                           "badoffset": lambda: b.add("q", RWreg(8), offset=3),
+                           "negoffset": lambda: b.add("q", RWreg(8), offset=-2)}[how]
+                    attempt(bad)
+                if k < n:
+                    b.add(f"r{k}", regs[k])
+            x = csr.Bridge(b.as_memory_map())
+            return x, [x.bus]
+        if comp == "monitor":
+            em = event.EventMap()
+            for k in range(n + 1):
+                if k == pos:
+                    attempt({"badtype": lambda: em.add("src"), "none": lambda: em.add(None)}[how])
+                if k < n:
+                    em.add(event.Source(trigger=("level", "rise", "fall")[k % 3], path=(f"s{k}",)))
+            x = event.Monitor(em) if how == "badtype" else EventMonitor(em, data_width=8)
+            return x, [x] if how == "badtype" else [x.bus]
+        if comp == "mux":
+            # the multiplexer does not freeze its map: registers may still be added (or refused) after it exists
+            mm = MemoryMap(addr_width=3, data_width=8)
+            x = None
+            for k in range(n + 1):
+                if k == pos:
+                    x = csr.Multiplexer(mm)
+                    attempt({"overlap": lambda: mm.add_resource(stub_register(8, "rw"), name="o", addr=0, size=1),
+                             "oob": lambda: mm.add_resource(stub_register(8, "rw"), name="o", addr=8, size=1),
+                             "name": lambda: mm.add_resource(stub_register(8, "rw"), name="r0", size=1),
+                             "none": lambda: None}[how])
+                if k < n:
+                    mm.add_resource(stub_register(8 + 8 * (k % 2), "rw"), name=f"r{k}", size=1 + (k % 2))
+            return x, [x.bus]
+        if comp == "sram":
+            x = WishboneSRAM(size=4, data_width=16, granularity=8, init=(1, 2))
+            attempt({"elem": lambda: setattr(x, "init", [3, "x"]), "long": lambda: setattr(x, "init", [1, 2, 3]),
+                     "badtype": lambda: setattr(x, "init", 5)}[how])
+            return x, [x.wb_bus]
+        raise KeyError(comp)
     if kind == "register":
         racc, a1, a2, s1, s2, form = p
         sh = _shapes()
@@ -301,6 +403,19 @@ def configs(tier):
             for al in (0, 1, 2):
                 for subs in itertools.product((1, 2, 3), repeat=2):
                     T.append(("csrdec", (daw, dw, al, subs)))
+    for comp, hows, ns in (("wbdec", ("overlap", "oob", "name", "width", "badtype"), (1, 2)),
+                           ("csrdec", ("overlap", "oob", "name", "width", "badtype"), (1, 2)),
+                           ("arbiter", ("width", "addr", "gran", "feature", "badtype"), (1, 2, 3)),
+                           ("bridge", ("dup", "badtype", "badname", "badoffset", "negoffset"), (1, 2)),
+                           ("monitor", ("badtype", "none"), (0, 2)),
+                           ("mux", ("overlap", "oob", "name", "none"), (1, 3)),
+                           ("sram", ("elem", "long", "badtype"), (0,))):
+        for how in hows:
+            for n in ns:
+                for pos in range(n + 1):
+                    if pos == 0 and how in ("name", "dup", "overlap"):
+                        continue            # nothing to collide with yet
+                    T.append(("after_refusal", (comp, how, pos, n)))
     acts = ["R", "W", "RW", "RW1C", "RW1S", "ResRAW0", "ResR0WA"]
     shp = ["0", "1", "3", "s2", "enum"]
     for racc in ("r", "w", "rw"):
